@@ -15,6 +15,7 @@ Rewrites (see DESIGN.md 2.3):
  8. float literals that are not binary fractions (0.1, 5.792105e-2) -> _sx.flit(v): their exact
     decimal value in exact mode, the ordinary float otherwise.
  9. a & b, a | b, a ^ b       -> _sx.bitop(...)  (keeps the dtype of numpy scalars next to object arrays)
+ 9b. a + b, a - b, a * b, a ** b, a << b, a >> b, a // b with no literal operand -> _sx.bitop(...) for the same reason
 """
 import ast
 import importlib.abc
@@ -177,6 +178,12 @@ class Rewriter(ast.NodeTransformer):
         self.generic_visit(node)
         if isinstance(node.op, (ast.BitAnd, ast.BitOr, ast.BitXor)):
             opn = {ast.BitAnd: 'and_', ast.BitOr: 'or_', ast.BitXor: 'xor'}[type(node.op)]
+            return ast.copy_location(ast.Call(func=_sx('bitop'), args=[ast.Constant(value=opn), node.left, node.right],
+                                              keywords=[]), node)
+        if isinstance(node.op, (ast.Add, ast.Sub, ast.Mult, ast.Pow, ast.LShift, ast.RShift, ast.FloorDiv)) \
+                and not isinstance(node.left, ast.Constant) and not isinstance(node.right, ast.Constant):
+            opn = {ast.Add: 'add', ast.Sub: 'sub', ast.Mult: 'mul', ast.Pow: 'pow', ast.LShift: 'lshift', ast.RShift: 'rshift',
+                   ast.FloorDiv: 'floordiv'}[type(node.op)]
             return ast.copy_location(ast.Call(func=_sx('bitop'), args=[ast.Constant(value=opn), node.left, node.right],
                                               keywords=[]), node)
         if isinstance(node.op, ast.Mod) and isinstance(node.left, ast.Constant) \
